@@ -883,7 +883,13 @@ func runCancelOwner(c *Ctx) {
 					}
 					return true
 				})
-				if uses && h != g && h.Var != nil {
+				// a use inside an anonymous literal (a goroutine body) belongs to the named closure around it (round 7)
+				named := h
+				for named != nil && named != g && named.Var == nil {
+					named = named.Parent
+				}
+				if uses && named != nil && named != g && named.Var != nil {
+					h := named
 					// how often is h invoked?
 					sites, inLoop := 0, false
 					var stack []ast.Node
